@@ -1,5 +1,6 @@
 import Gaftools.Props.C06f
 import Gaftools.Props.C15Hist
+import Gaftools.Proofs.OrderRunLemmas
 /-!
 # C06 — the model of `run_order_gfa` end to end (tags)
 
@@ -10,18 +11,22 @@ tags that satisfy the definition-level chain specification, with the first BO of
 -/
 namespace Gaftools.C06
 open Gaftools.Gfa Gaftools.Algo Gaftools.Order Gaftools.Spec.Order Gaftools.Spec.Graph
+open Gaftools.Proofs.OrderRun
 
 /-- shifting every BO by `lo` turns a chain numbered from 0 into one numbered from `lo` -/
 theorem chainSpecB_shift (nb : V → List V) (comp : List V) (so : V → Option Int) (tag : V → Option (Int × Int)) (lo : Int)
     (h : chainSpecB nb comp so tag 0 = true) :
     chainSpecB nb comp so (fun v => (tag v).map (fun x => (lo + x.1, x.2))) lo = true := by
-  sorry
+  have := chainSpecB_shift' nb comp so tag lo
+  unfold shiftTag at this
+  rw [this]
+  exact h
 
 /-- `decompose` only looks at the neighbour lists of the component's own nodes -/
 theorem decompose_congr (nb nb' : V → List V) (comp : List V) (so : V → Option Int) (sn : V → Option String)
     (hne : comp ≠ []) (hclosed : ∀ a ∈ comp, ∀ b ∈ nb a, b ∈ comp) (hagree : ∀ a ∈ comp, nb' a = nb a) :
-    decompose nb' comp so sn = decompose nb comp so sn := by
-  sorry
+    decompose nb' comp so sn = decompose nb comp so sn :=
+  decompose_congr' nb nb' comp so sn hne hclosed hagree
 
 /-- MAIN: the tags of every written chromosome with at least two scaffold nodes meet the chain specification -/
 theorem orderRun_chain (t : GfaFile) (order : List String) (lm : Bool) (ws : List Written) (next : Int)
@@ -31,6 +36,46 @@ theorem orderRun_chain (t : GfaFile) (order : List String) (lm : Bool) (ws : Lis
       ∃ lo : Int, 0 ≤ lo ∧
         chainSpecB (Graph.nbFun (readGraph t lm)) (compOfName t lm w.name) (soOf t)
           (fun v => (w.tags.find? (·.1 == v)).map (·.2)) lo = true := by
-  sorry
+  intro w hw h2
+  -- what the loop wrote
+  have hgo : Gaftools.C18.go (fun c => decompose (Graph.nbFun (readGraph t lm)) (compOfName t lm c) (soOf t) (snOf t))
+      ([], 0) order = .ok (ws, next) := h
+  have hws := Gaftools.C18.go_written _ order _ _ hgo
+  simp only [List.nil_append] at hws
+  rw [hws] at hw
+  obtain ⟨l, lo, hlo, hdec, htags, haps⟩ := outList_mem _ order 0 (Int.le_refl 0) w hw
+  refine ⟨lo, hlo, ?_⟩
+  have htagfun : (fun v => (w.tags.find? (·.1 == v)).map (·.2)) =
+      shiftTag lo (fun v => (l.order.find? (·.1 == v)).map (fun x => ((x.2.1 : Int), (x.2.2 : Int)))) := by
+    funext v
+    rw [htags]
+    exact tags_shift l.order lo v
+  rw [htagfun, chainSpecB_shift']
+  -- the component
+  rcases compOfName_cases t lm w.name with hnil | hmem
+  · rw [hnil]
+    exact chainSpecB_nil _ _ _ _
+  · have hU := Gaftools.C15.readGraph_undirected t hids lm
+    have hidsEq : Graph.ids (readGraph t lm) = t.segs.map (·.id) := Gaftools.Proofs.Write.ids_readGraph t lm hids
+    have hnd : (Graph.ids (readGraph t lm)).Nodup := by rw [hidsEq]; exact hids
+    have hpart := Gaftools.C15.components_partition _ _ hU hnd
+    obtain ⟨hne, hcnd, hsub, hcls⟩ := hpart.1 _ hmem
+    generalize compOfName t lm w.name = comp at hdec hne hcnd hsub hcls ⊢
+    have hclosed := class_closed (Graph.nbFun (readGraph t lm)) comp hcls
+    have hagree := restrict_agree (Graph.nbFun (readGraph t lm)) comp
+    have hu' := restrict_undirected _ _ comp hU hclosed
+    have hconn := restrict_connected _ _ comp hU hcls
+    have htab' : ∀ v ∈ comp, '\t' ∉ v.toList := by
+      intro v hv
+      have := hsub v hv
+      rw [hidsEq, List.mem_map] at this
+      obtain ⟨s, hs, rfl⟩ := this
+      exact htab s hs
+    have hdec' : decompose (restrict (Graph.nbFun (readGraph t lm)) comp) comp (soOf t) (snOf t) = .ok l := by
+      rw [decompose_congr _ _ comp _ _ hne hclosed hagree]
+      exact hdec
+    have := chainCorrect _ comp (soOf t) (snOf t) l hu' hcnd hconn htab' hdec' (by rw [← haps]; exact h2)
+    rw [chainSpecB_congr _ _ comp hclosed hagree] at this
+    exact this
 
 end Gaftools.C06
